@@ -431,7 +431,14 @@ def check(ctx):
                 ctx.ok("C09.R5", owner, "the registering wrapper itself (R6)", where=fi.loc)
                 continue
             if owner == f"{CACHE_MOD}.set_size":
-                ctx.ok("C09.R5", owner, "set_size re-wraps registered functions (not in the property's operation alphabet; see note)", nontrivial=False, where=fi.loc)
+                # the re-sized cache replaces the registered one for every later call: it must be registered too
+                tgt = None
+                for a_ in ast.walk(fi.node):
+                    if isinstance(a_, ast.Assign) and any(node is x_ for x_ in ast.walk(a_.value)) and isinstance(a_.targets[0], ast.Name):
+                        tgt = a_.targets[0].id
+                registered = any(isinstance(c_, ast.Call) and norm(c_.func) in ("_cached.append", "_cached.insert") and c_.args and (norm(c_.args[-1]) == tgt or any(node is x_ for x_ in ast.walk(c_.args[-1]))) for c_ in ast.walk(fi.node)) \
+                    or any(isinstance(a_, ast.Assign) and isinstance(a_.targets[0], ast.Subscript) and norm(a_.targets[0].value) == "_cached" and (norm(a_.value) == tgt or any(node is x_ for x_ in ast.walk(a_.value))) for a_ in ast.walk(fi.node))
+                ctx.check(registered, "C09.R5", owner, node, "set_size creates new lru_cache objects and binds the cached functions to them without registering them in _cached: every later reset() (settings, registrations) clears the previous caches only, so methods compiled after set_size are never invalidated", fi, node, detail="_cached.append(<resized cache>)")
                 continue
             # is this call a decorator of a nested function? then handled as decorator
             is_deco = any(node is d or node is getattr(d, "func", None) for g in fi.nested.values() for d in g.node.decorator_list)
@@ -472,7 +479,7 @@ def check(ctx):
                     ctx.check(closure, "C09.R5b", fi.qualname, c,
                               "DeserializationMethodFactory built from something else than a closure created by this compilation: its lru_cache key could survive a reset",
                               fi, c)
-    ctx.note("cache.set_size rebinds module attributes to new lru_cache objects without updating _cached; set_size is not in the property's operation alphabet, reported as information only")
+    ctx.note("cache.set_size is not in the property's operation alphabet; since fix 1886c98 the re-sized caches are registered and R5 requires it")
 
 
 def stmt_of(fi: FuncInfo, node) -> ast.AST:
@@ -537,6 +544,7 @@ def fixtures(ctx):
 
 # ---------------------------------------------------------------------------
 def mutants(mb):
+    mb.add_text("set-size-unregistered", "apischema/cache.py", "        _cached.append(resized)\n", "", "C09.R5", "set_size")
     from ..selftest import find_func, first
     # R1
     mb.add_text("delitem-no-reset", "apischema/cache.py", "        del self.wrapped[key]\n        reset()\n", "        del self.wrapped[key]\n", "C09.R1", "__delitem__")
